@@ -238,7 +238,7 @@ def gen_workbook(rng, max_sheets=4):
     # defined names
     dn = {}
     pool = ['rate', 'total_x', 'nm_a', 'Input1', 'k_2', 'tax', 'rng_a',
-            'rng_b']
+            'rng_b', '_base', '_x1', 'Täx', 'a.b']
     rng.shuffle(pool)
     for _ in range(rng.choice([0, 1, 1, 2, 3])):
         sh = rng.choice(sheets)
